@@ -1,5 +1,8 @@
 // "sha" family (C08): real Sha256 streaming object, HmacSha256::compute / verify.
 #include "common.hpp"
+#include <algorithm>
+#include <span>
+#include <vector>
 #include "ephemeralnet/crypto/Sha256.hpp"
 #include "ephemeralnet/crypto/HmacSha256.hpp"
 using namespace ephemeralnet::crypto;
@@ -25,6 +28,16 @@ int main() {
             const auto key = in.bytes(); const auto data = in.bytes(); const auto mac = in.bytes();
             hv::TightBuf tk(key), td(data), tm(mac);
             out.put(HmacSha256::verify(tk.span(), td.span(), tm.span()) ? 1 : 0);
+        } else if (mode == 4) {
+            // a long message that is not written out in the case: total bytes of the pattern b(i) = (131 i + seed) mod 256, fed in
+            // pieces (a multiple of 256, so every full piece is the same buffer); the bit length crosses 2^32 at 2^29 bytes
+            const i64 total = in.next(), piece = in.next(), seed = in.next();
+            std::vector<std::uint8_t> buf(static_cast<std::size_t>(piece));
+            for (std::size_t i = 0; i < buf.size(); ++i) buf[i] = static_cast<std::uint8_t>((131 * i + static_cast<std::size_t>(seed)) & 0xFF);
+            Sha256 h;
+            for (i64 done = 0; done < total; done += piece)
+                h.update(std::span<const std::uint8_t>(buf.data(), static_cast<std::size_t>(std::min<i64>(piece, total - done))));
+            out.raw(h.finalize());
         } else out.put(-1);
     });
 }
